@@ -44,9 +44,51 @@ def make(sid, specs, order, allsym, full_index, orders):
     return Ob("C08:" + sid, body, timeout=(1500 if "big" in sid or "55000" in sid else 300), tags={"part": "fsck"}, text="%s [%s]" % (" + ".join(s.text() for s in specs), order))
 
 
+def make_overflow(sid, lengths):
+    """a file sequence that does NOT fit, stored the way both front ends do (VirtualFile.add_coco_file ...
+    save_virtual_file): either nothing is written, or what is written is a consistent image"""
+    def body(ctx):
+        from vlib.harness import MemFS, install_m7
+        from cocoasm.virtualfiles.virtual_file import VirtualFile, VirtualFileType
+        from cocoasm.virtualfiles.source_file import SourceFile, SourceFileType
+        from . import files as F
+        install_m7()
+        specs = [F.Spec("F%d" % i, n, "ml") for i, n in enumerate(lengths)]
+        fl, descs = F.build(ctx, specs, allsym_limit=1)
+        info = {"lengths": lengths}
+        with MemFS({}) as fs:
+            vf = VirtualFile(SourceFile("full.dsk", file_type=SourceFileType.BINARY), VirtualFileType.DISK)
+            err = None
+            try:
+                vf.open_virtual_file()
+                for cf in fl:
+                    vf.add_coco_file(cf)
+                vf.save_virtual_file()
+            except Exception as e:  # noqa: BLE001
+                err = "%s: %s" % (type(e).__name__, e)
+            written = fs.files.get("full.dsk")
+        info["error"] = err
+        if written is None:
+            return True, info                     # refused, nothing written
+        try:
+            OD.fsck(written, None)
+        except OD.FsError as e:
+            info["fault"] = "an image was written although the files do not fit, and it is inconsistent: %s" % e
+            return ctx.known(PID, {"part": "overflow"}, {"fault": str(e)}), info
+        return True, info
+    ob = Ob("C08:overflow:" + sid, body, timeout=600, tags={"part": "overflow"}, text="files of %s bytes through VirtualFile.save_virtual_file (do not fit)" % (lengths,), r4=False)
+    ob.native_only = True
+    ob.ncases = 1
+    return ob
+
+
 def obligations(tier, seed):
     orders = disk.fill_orders(seed)
-    return [make(sid, specs, order, allsym, fi, orders) for (sid, specs, order, allsym, fi) in disk.scenarios(tier, seed)]
+    obs = [make(sid, specs, order, allsym, fi, orders) for (sid, specs, order, allsym, fi) in disk.scenarios(tier, seed)]
+    obs.append(make_overflow("8x9gran", [20000] * 8))            # the 8th file finds 5 granules, needs 9
+    obs.append(make_overflow("68+1", [2294] * 69))               # the 69th file finds none
+    obs.append(make_overflow("big+small", [150000, 10000, 300]))
+    return obs
 
 
 gates = c06.gates
